@@ -54,16 +54,32 @@ def flow_objective(rep, res, entry, need, probs=None, label="objective", rule="R
 def must_enter(rep, res, entry, origins, label="objective", rule="R-FLOW"):
     """an input that enters the cvx expressions directly (as a numeric operand, not through a Parameter) does so on EVERY path: the
     sites where it enters are not all guarded by tests the configuration leaves undecided (e.g. a test on the input's own values)"""
-    def undecided(ev):
-        return [(g[0], g[1]) for g in ev.guards if len(g) > 3 and not g[3]]
+    import ast as _ast
+
+    def undecided(ev, o=None):
+        out = []
+        for g in ev.guards:
+            if len(g) > 3 and not g[3]:
+                # `if np.any(o):` around an ADDED term skips exact zeros only — adding an all-zero term is a no-op
+                t = g[2]
+                deps = g[4] if len(g) > 4 else None
+                opd = set()
+                for x_ in ev.d.get("operands", ()):
+                    if o is not None and o in x_.flat().data:
+                        opd |= set(x_.flat().data) | set(x_.flat().shp)
+                if o is not None and g[1] is True and isinstance(t, _ast.Call) and deps is not None and o in set(deps) and set(deps) <= opd and (
+                        (isinstance(t.func, _ast.Attribute) and t.func.attr == "any")) and ev.d.get("atom") in ("add", "multiply", "mul", "matmul"):
+                    continue
+                out.append((g[0], g[1]))
+        return out
     for o in sorted(origins):
         evs = [ev for ev in res.events("cvx_entry") if any(o in x.flat().data for x in ev.d["operands"])]
         if not evs:
             continue
-        free = [ev for ev in evs if not undecided(ev)]
+        free = [ev for ev in evs if not undecided(ev, o)]
         ok = bool(free)
         if not ok:
-            singles = [u[0] for u in (undecided(ev) for ev in evs) if len(u) == 1]
+            singles = [u[0] for u in (undecided(ev, o) for ev in evs) if len(u) == 1]
             ok = any((t, not p_) in singles for (t, p_) in singles)
         ev = evs[0]
         rep.check(rule, f"{o} enters the {label} on every path", ok, where=ev.loc, construct=ev.text(), entry=entry, config=res.config,
@@ -253,6 +269,69 @@ def forwards(rep, res, entry, callee_names, need, rule="R-FORWARD", exact=True):
     return calls
 
 
+def guard_under(test, pol, valuation, names, fn_node=None, depth=0):
+    """Three-valued evaluation (True / False / None) of a guard expression under a hypothetical content of a non-negative bound array:
+    valuation 'Z' = all entries 0, 'P' = all entries positive, 'M' = zeros and positives mixed.  Only the vocabulary that guards on
+    bounds use is understood: np.all / np.any / .all() / .any() of the array or of a comparison of it with 0, np.isfinite, not / and /
+    or, and local names assigned once from such expressions (dict / conditional expressions count by truthiness)."""
+    import ast as _ast
+    elems = {"Z": {0}, "P": {1}, "M": {0, 1}}[valuation]
+
+    def is_arr(n):
+        return isinstance(n, _ast.Name) and (n.id in names or n.id.rstrip("_") in names)
+
+    def elemwise(n):
+        """set of possible element truth values of an elementwise expression over the array, or None"""
+        if is_arr(n):
+            return {bool(e) for e in elems}
+        if isinstance(n, _ast.Compare) and len(n.ops) == 1 and is_arr(n.left) and isinstance(n.comparators[0], _ast.Constant) \
+                and n.comparators[0].value == 0:
+            op = n.ops[0]
+            f = {_ast.Gt: lambda e: e > 0, _ast.GtE: lambda e: e >= 0, _ast.Eq: lambda e: e == 0, _ast.NotEq: lambda e: e != 0,
+                 _ast.Lt: lambda e: e < 0, _ast.LtE: lambda e: e <= 0}.get(type(op))
+            return {f(e) for e in elems} if f else None
+        if isinstance(n, _ast.Call) and isinstance(n.func, _ast.Attribute) and n.func.attr == "isfinite" and n.args and is_arr(n.args[0]):
+            return {True}
+        if isinstance(n, _ast.UnaryOp) and isinstance(n.op, _ast.Invert):
+            r = elemwise(n.operand)
+            return None if r is None else {not x for x in r}
+        return None
+
+    def ev(n, depth=0):
+        if isinstance(n, _ast.Constant):
+            return bool(n.value)
+        if isinstance(n, _ast.UnaryOp) and isinstance(n.op, _ast.Not):
+            r = ev(n.operand, depth)
+            return None if r is None else (not r)
+        if isinstance(n, _ast.BoolOp):
+            rs = [ev(x, depth) for x in n.values]
+            if isinstance(n.op, _ast.And):
+                return False if any(r is False for r in rs) else (True if all(r is True for r in rs) else None)
+            return True if any(r is True for r in rs) else (False if all(r is False for r in rs) else None)
+        if isinstance(n, _ast.Call) and isinstance(n.func, _ast.Attribute) and n.func.attr in ("all", "any"):
+            arg = n.args[0] if n.args else n.func.value
+            r = elemwise(arg)
+            if r is None:
+                return None
+            return all(r) if n.func.attr == "all" else any(r)
+        if isinstance(n, _ast.Dict):
+            return bool(n.keys)
+        if isinstance(n, _ast.IfExp):
+            t = ev(n.test, depth)
+            if t is None:
+                a_, b_ = ev(n.body, depth), ev(n.orelse, depth)
+                return a_ if a_ == b_ else None
+            return ev(n.body if t else n.orelse, depth)
+        if isinstance(n, _ast.Name) and fn_node is not None and depth < 3 and not is_arr(n):
+            assigns = [st for st in _ast.walk(fn_node) if isinstance(st, _ast.Assign) and len(st.targets) == 1
+                       and isinstance(st.targets[0], _ast.Name) and st.targets[0].id == n.id]
+            if len(assigns) == 1:
+                return ev(assigns[0].value, depth + 1)
+        return None
+    r = ev(test)
+    return None if r is None else (r if pol else not r)
+
+
 def must_constraint(rep, res, entry, origin, label, probs=None, rule="R-FLOW"):
     """Under a configuration in which the bound is finite, a constraint carrying `origin` is added on EVERY path:
     its creation is guarded only by tests the configuration decides (or by complementary guards)."""
@@ -260,14 +339,54 @@ def must_constraint(rep, res, entry, origin, label, probs=None, rule="R-FLOW"):
     evs = [ev for ev in res.events("cvx_constraint") if origin in R.closure_deps(res, ev.d["val"])]
     if not evs:
         return          # absence is reported by flow_constraints
+    import ast as _ast
+
+    def skips_only_zero(g, ev):
+        """`if np.any(lb > 0):` / `if np.any(lb):` around `x >= lb` when x is declared non-negative: the constraint is skipped only for
+        lb ≡ 0, where the sign attribute already enforces it"""
+        t = g[2]
+        if not (g[1] is True and isinstance(t, _ast.Call) and isinstance(t.func, _ast.Attribute) and t.func.attr == "any" and t.args):
+            return False
+        a0 = t.args[0]
+        if isinstance(a0, _ast.Compare):
+            if not (len(a0.ops) == 1 and isinstance(a0.ops[0], (_ast.Gt, _ast.NotEq)) and isinstance(a0.comparators[0], _ast.Constant)
+                    and a0.comparators[0].value == 0):
+                return False
+        deps = set(g[4]) if len(g) > 4 and g[4] is not None else None
+        if deps is None or origin not in deps or not deps <= {origin}:
+            return False
+        vids = R.leaf_kinds(res, ev.d["val"])[1]
+        return bool(vids) and all((res.heap[v].attrs.get("pos") or res.heap[v].attrs.get("nonneg")) for v in vids) and "lower" in label
+
     def undecided(ev):
-        return [(g[0], g[1]) for g in ev.guards if len(g) > 3 and not g[3]]
+        return [(g[0], g[1]) for g in ev.guards if len(g) > 3 and not g[3] and not skips_only_zero(g, ev)]
     free = [ev for ev in evs if not undecided(ev)]
     ok = bool(free)
     if not ok:
         und = [undecided(ev) for ev in evs]
         singles = [u[0] for u in und if len(u) == 1]
         ok = any((t, not p) in singles for (t, p) in singles)
+    if not ok and "lower" in label:
+        # evaluate the guards under hypothetical contents of the (non-negative) bound: the constraint must be present whenever some entry
+        # is positive ('P', 'M'); it may be absent for an all-zero bound ('Z') only if the variable is declared non-negative
+        present = {}
+        for val_ in ("Z", "P", "M"):
+            best = False
+            for ev_ in evs:
+                rs = [guard_under(g[2], g[1], val_, {origin}, ev_.fn.node) for g in ev_.guards if len(g) > 3 and not g[3]]
+                r = False if any(x is False for x in rs) else (True if all(x is True for x in rs) else None)
+                best = True if (best is True or r is True) else (None if (best is None or r is None) else False)
+            present[val_] = best
+        if present["P"] is True and present["M"] is True:
+            vids = set()
+            for ev_ in evs:
+                vids |= R.leaf_kinds(res, ev_.d["val"])[1]
+            nonneg = bool(vids) and all((res.heap[v].attrs.get("pos") or res.heap[v].attrs.get("nonneg")) for v in vids)
+            ok = True if (present["Z"] is True or nonneg) else None
+        elif present["P"] is False or present["M"] is False:
+            ok = False
+        else:
+            ok = False if all(x is not None for x in present.values()) else ok
     ev = evs[0]
     rep.check(rule, f"{label} enforced on every path", ok, where=ev.loc, construct=ev.text(), entry=entry, config=res.config,
               msg=(f"the only constraint carrying `{origin}` is created under the undecided guard(s) "
